@@ -117,7 +117,7 @@ def run(rep, tier, seed):
             if what in ('read', 'pread', 'mmap') and name.endswith('.ldb') and len(hot) < 400 and rng.chance(1, 6): hot.add(ix)
             if what in ('read', 'pread') and name.endswith('.ldb') and call is not None and call < len(ops) and ops[call].startswith('get '): hot.add(ix)
             if name.startswith('MANIFEST') and what in ('write', 'fsync'): hot.add(ix)
-            if what == 'fsync' and name == '.' and rng.chance(1, 2): hot.add(ix)
+            if what == 'fsync' and name == '.': hot.add(ix)
         for call, ixs in by_call.items():
             if len(ixs) >= 2: hot.update(ixs[:-1])
         ks = list(range(0, n_sites))
